@@ -34,6 +34,10 @@ impl Language for Scala {
     ) -> std::io::Result<()> {
         self.begin_file(writable, &data)?;
 
+        for c in data.consts.iter() {
+            self.write_const(writable, c)?;
+        }
+
         // Package object to hold type aliases: aliases must be in class or object in Scala 2)
         let unsigned_used = self.unsigned_integer_used(&data);
         if unsigned_used || !data.aliases.is_empty() {
@@ -157,8 +161,11 @@ impl Language for Scala {
         Ok(())
     }
 
-    fn write_const(&mut self, _w: &mut dyn Write, _c: &RustConst) -> std::io::Result<()> {
-        todo!()
+    fn write_const(&mut self, _w: &mut dyn Write, c: &RustConst) -> std::io::Result<()> {
+        Err(std::io::Error::new(
+            std::io::ErrorKind::Other,
+            format!("constants are not supported for Scala: `{}`", c.id.original),
+        ))
     }
 
     fn write_struct(&mut self, w: &mut dyn Write, rs: &RustStruct) -> std::io::Result<()> {
